@@ -178,7 +178,7 @@ def _const_of(t):
     return None
 
 
-def check_const_index(f):
+def check_const_index(f, intervals=None):
     """index accesses with a constant index k whose container's length is compared with constants on the way:
     the interval the dominating comparisons leave for len must exclude 0..=k"""
     T = Terms(f)
@@ -266,6 +266,8 @@ def check_const_index(f):
         if not seen:
             continue
         guarded += 1
+        if intervals is not None:
+            intervals.append((item, cont, k, lo, hi if hi < INF else None))
         if lo <= k and lo <= hi:
             bad.append((item, k, lo, hi if hi < INF else None))
     return bad, guarded
